@@ -39,7 +39,7 @@ def gen_val(rng):
     r = rng.random()
     n = rng.choice([0, 1, 1, 2, 2, 3, 4])
     if r < 0.03:
-        return {"k": "agentclass", "v": rng.choice(["Agent", "Wolf", "agent_instance"])}
+        return {"k": "agentclass", "v": rng.choice(["Agent", "Wolf", "agent_instance", "taglib", "constgen", "model", "sysman", "component"])}
     if r < 0.12:
         return {"k": "int", "v": rng.randint(-5, 50)}
     if r < 0.18:
@@ -95,6 +95,19 @@ _SINGLETONS = {}
 def _single(name):
     from ECAgent.Core import Agent, Model
     if name not in _SINGLETONS:
+        if name in ("taglib", "constgen", "model", "sysman", "component"):
+            # objects of bundled classes handed to every model as they are (a tag library shared by the runs, a generator, a
+            # template model): none of them is a collection of values
+            from ECAgent.Core import Component
+            from ECAgent.Environments import ConstantGenerator
+            import ECAgent.Tags as _tags       # (`from ECAgent.Tags import X` fails on this package: the module's __getattr__
+            lib = _tags.TagLibrary()           # answers the import machinery's probe for __path__ with TagNotFoundError)
+            lib.add_tag("PREY")
+            lib.add_tag("PREDATOR")
+            tm = Model(seed=1)
+            _SINGLETONS[name] = {"taglib": lib, "constgen": ConstantGenerator(3), "model": tm, "sysman": tm.systems,
+                                 "component": Component(None, tm)}[name]
+            return _SINGLETONS[name]
         _SINGLETONS[name] = {"Agent": Agent, "Wolf": Wolf}.get(name) or Agent("lone", Model(seed=1))
     return _SINGLETONS[name]
 
@@ -159,6 +172,8 @@ def generate(rng, tier):
         # a model with many arguments of which only a few are swept: 9-13 parameters, most single values, 2-4 collections at
         # random positions (the order of the product is the declaration order whatever the positions are)
         wide = [f"q{i}" for i in range(rng.choice([rng.randint(9, 13), rng.randint(9, 13), rng.randint(9, 13), rng.randint(64, 70)]))]
+        if rng.random() < 0.03:
+            wide = [f"q{i}" for i in range(rng.randint(1100, 1600))]      # a configuration object flattened into keyword arguments
         multi = set(rng.sample(range(len(wide)), rng.randint(2, 4)))
         init = []
         for i, nm in enumerate(wide):
